@@ -128,6 +128,7 @@ PROBES.insert(0, (re.compile(r"^hid::(Message::extend|ChannelHandler::handle_pac
                   ["010203049000c8" + "aa" * 57 + ",0102030400" + "bb" * 100 + ",0102030401" + "cc" * 59 + ",0102030402" + "dd" * 59,
                    "010203049000c8" + "aa" * 57 + ",0102030400" + "bb" * 200,
                    "0102030490003c" + "aa" * 100 + ",0102030400" + "bb" * 59]))
+PROBES.insert(0, (re.compile(r"^enc::RegisterResponse::encode::"), "u2f-register-response", ["40|8|8", "0|5|7", "255|3|70", "16|0|8", "1|300|72"]))
 PROBES.insert(0, (re.compile(r"^cosek::"), "cose-der", ["32,32", "31,32", "32,33", "0,32", "32,0", "64,64"]))
 # a getInfo response whose transports list (key 0x09) declares 2^26 elements and ends there: 7 bytes of input
 PROBES.insert(0, (re.compile(r"^serdecap::(PossiblyUnknown|IgnoreUnknown)"), "cbor-get-info-response", ["a1099a04000000"]))
@@ -212,6 +213,22 @@ def kani_bounded_input(o):
     F = fams.get(h.get("family"))
     if not F:
         return None
+    # harnesses whose failing inputs are not read from Kani's playback: the clause-derived inputs are executed directly
+    res = {"input": None, "reproduced": False, "kani_harness": h["harness"], "kani_failed_checks": [d.get("message") for d in (h.get("diags") or [])][:6]}
+    if h["harness"].startswith("u2f_enc_register_response"):
+        # the harness fails on the order / length byte of the fields: lengths that tell the fields apart are executed on the real encoder
+        for arg in ("40|8|8", "0|5|7", "255|3|70", "16|0|8", "1|300|72"):
+            rep = run_replay("u2f-register-response", arg)
+            if rep.get("violates"):
+                res.update({"entry": "u2f-register-response", "replay_result": rep, "input": arg, "reproduced": True})
+                return res
+        return res
+    if h["harness"] == "choose_algorithm_first_supported":
+        rep = run_replay("ceremony", "c02-alg")
+        res.update({"entry": "ceremony", "replay_result": rep})
+        if rep.get("violates"):
+            res.update({"input": "c02-alg", "reproduced": True})
+        return res
     r = kani.run_harness(F["crate"], h["harness"], F.get("flags", []), F.get("timeout", 900), playback=True)
     vals = playback_bytes(r["out"])
     res = {"input": None, "reproduced": False, "kani_harness": h["harness"], "kani_cmd": r["cmd"],
@@ -311,6 +328,12 @@ def fallback_probe(pid, units):
     input (it needs no proof); finding none decides nothing."""
     tried = 0
     skip = known_inputs(pid)
+    if "c18" in units:
+        for op in ("get_info", "make_credential", "get_assertion"):
+            rep = run_replay("c18-trait", op, timeout=120)
+            tried += 1
+            if rep.get("violates"):
+                return {"entry": "c18-trait", "input": op, "replay_result": rep, "tried": tried}
     if pid in CEREMONY and "cer" in units:
         for sc in CEREMONY[pid]:
             if sc == "c09-enabled-no-prf" or ("ceremony %s" % sc) in skip:
